@@ -16,6 +16,7 @@ OUTB = 'crates/anemo/src/middleware/timeout/outbound.rs'
 REQ = 'crates/anemo/src/types/request.rs'
 TYPES = 'crates/anemo/src/types/mod.rs'
 CONFIG = 'crates/anemo/src/config.rs'
+NET = 'crates/anemo/src/network/mod.rs'
 
 STANDINS = r'''
 // ---------- trusted stand-ins ----------
@@ -66,6 +67,40 @@ pub trait Service<Req> {
     fn call(&mut self, req: Req) -> (r: Self::Future)
         ensures final(self).calls() == old(self).calls().push(req), r == old(self).fut_of(req);
 }
+'''
+
+WIRING_STANDINS = r'''
+// ---------- tower::ServiceBuilder / BoxLayer as recorders: a stack is the sequence of its layers, OUTERMOST first (tower: the first
+// layer added to a ServiceBuilder sees the request first) ----------
+pub enum LayerRec { OutboundTimeout(Option<Duration>), InboundTimeout(Option<Duration>), AddExtension, User(nat) }
+pub trait RecordedLayer { spec fn rec(&self) -> LayerRec; }
+impl RecordedLayer for outbound::TimeoutLayer { open spec fn rec(&self) -> LayerRec { LayerRec::OutboundTimeout(self.default_timeout) } }
+impl RecordedLayer for inbound::TimeoutLayer { open spec fn rec(&self) -> LayerRec { LayerRec::InboundTimeout(self.default_timeout) } }
+pub struct BoxLayer { pub layers: Ghost<Seq<LayerRec>>, pub id: Ghost<nat> }
+impl RecordedLayer for BoxLayer { open spec fn rec(&self) -> LayerRec { LayerRec::User(self.id@) } }   // a layer supplied by the user: opaque
+pub struct WeakNetwork;
+impl WeakNetwork { #[verifier::external_body] pub fn clone(&self) -> (r: Self) { unimplemented!() } }
+pub struct NetworkRef(pub WeakNetwork);
+pub struct AddExtensionLayer<T> { pub v: T }
+impl<T> AddExtensionLayer<T> { #[verifier::external_body] pub fn new(v: T) -> (r: Self) { unimplemented!() } }
+impl<T> RecordedLayer for AddExtensionLayer<T> { open spec fn rec(&self) -> LayerRec { LayerRec::AddExtension } }
+pub struct LayerStack { pub layers: Ghost<Seq<LayerRec>> }
+pub struct ServiceBuilder { pub layers: Ghost<Seq<LayerRec>> }
+pub struct UserService { pub id: u64 }
+pub struct BoxedService { pub layers: Ghost<Seq<LayerRec>>, pub inner: UserService }
+impl ServiceBuilder {
+    #[verifier::external_body] pub fn new() -> (r: Self) ensures r.layers@ == Seq::<LayerRec>::empty() { unimplemented!() }
+    #[verifier::external_body] pub fn layer<L: RecordedLayer>(self, l: L) -> (r: Self) ensures r.layers@ == self.layers@.push(l.rec()) { unimplemented!() }
+    #[verifier::external_body] pub fn into_inner(self) -> (r: LayerStack) ensures r.layers == self.layers { unimplemented!() }
+    #[verifier::external_body] pub fn service(self, s: UserService) -> (r: BoxedService) ensures r.layers == self.layers, r.inner == s { unimplemented!() }
+}
+impl BoxedService { #[verifier::external_body] pub fn boxed_clone(self) -> (r: Self) ensures r == self { unimplemented!() } }
+pub trait IntoStack { spec fn stack(&self) -> Seq<LayerRec>; }
+impl IntoStack for LayerStack { open spec fn stack(&self) -> Seq<LayerRec> { self.layers@ } }
+impl IntoStack for outbound::TimeoutLayer { open spec fn stack(&self) -> Seq<LayerRec> { seq![self.rec()] } }
+impl IntoStack for inbound::TimeoutLayer { open spec fn stack(&self) -> Seq<LayerRec> { seq![self.rec()] } }
+impl IntoStack for BoxLayer { open spec fn stack(&self) -> Seq<LayerRec> { seq![self.rec()] } }
+impl BoxLayer { #[verifier::external_body] pub fn new<L: IntoStack>(s: L) -> (r: Self) ensures r.layers@ == s.stack() { unimplemented!() } }
 '''
 
 SPEC = r'''
@@ -187,6 +222,27 @@ impl Config {
         dur(r) == (match self.%s_request_timeout_ms { Some(ms) => Some(ms as nat * 1000000), None => None }), // @OBL Config::%s_request_timeout::millis [C11] the configured %s default is the configured number of milliseconds; none configured means no default
 ''' % (f, f, f))
     t += '}\n'
+    # ---- wiring (network/mod.rs Builder::start): which layers every request of a network passes, lifted statements --------------------
+    t += WIRING_STANDINS
+    t += C.lifted(NET, 'impl Builder :: fn start', 'Builder::start::outbound_layer', ['C11'], anchor='let outbound_request_layer =', kind='stmt',
+                  name='builder_start_outbound_layer', params='config: &Config, this_outbound_request_layer: &mut Option<BoxLayer>', ret_ty='BoxLayer', ret='r',
+                  tail='        outbound_request_layer\n',
+                  rewrites=[dict(rule='X10', pattern='self.outbound_request_layer', repl='this_outbound_request_layer'), dict(rule='X5', pattern='timeout::outbound::', repl='outbound::', optional=True)],
+                  spec='''
+    ensures
+        r.layers@.len() >= 1 && r.layers@[0] is OutboundTimeout && dur(r.layers@[0]->OutboundTimeout_0) == (match config.outbound_request_timeout_ms { Some(ms) => Some(ms as nat * 1000000), None => None }), // @OBL Builder::start::outbound_layer::timeout_outermost_with_configured_default [C11] the layer stack every outgoing RPC of a network passes starts (outermost) with the outbound timeout middleware armed with the CONFIGURED outbound default: the configured default takes effect on every RPC made through the network, whatever layer the user adds
+        (*old(this_outbound_request_layer)) is Some ==> r.layers@ =~= seq![r.layers@[0], LayerRec::User((*old(this_outbound_request_layer))->Some_0.id@)], // @OBL Builder::start::outbound_layer::then_the_user_layer [C11] followed by the layer the user supplied, if any, and nothing else
+        (*old(this_outbound_request_layer)) is None ==> r.layers@.len() == 1, // @OBL Builder::start::outbound_layer::nothing_else [C11] (no user layer: only the timeout middleware)
+''')
+    t += C.lifted(NET, 'impl Builder :: fn start', 'Builder::start::inbound_service', ['C11'], anchor='let service = ServiceBuilder::new()', kind='stmt',
+                  name='builder_start_inbound_service', params='config: &Config, weak: &WeakNetwork, service: UserService', ret_ty='BoxedService', ret='r',
+                  tail='        service\n',
+                  rewrites=[dict(rule='X5', pattern='timeout::inbound::', repl='inbound::', optional=True)],
+                  spec='''
+    ensures
+        r.layers@.len() >= 1 && r.layers@[0] is InboundTimeout && dur(r.layers@[0]->InboundTimeout_0) == (match config.inbound_request_timeout_ms { Some(ms) => Some(ms as nat * 1000000), None => None }), // @OBL Builder::start::inbound_service::timeout_outermost_with_configured_default [C11] every request a network serves passes first (outermost) the inbound timeout middleware armed with the CONFIGURED inbound default
+        r.inner == service, // @OBL Builder::start::inbound_service::wraps_the_user_service [C11,C02] and ends at exactly the service the network was started with
+''')
     t += C.helpers_here()
     t += P.FOOTER
     return t
